@@ -15,16 +15,14 @@ import (
 	"bytes"
 	"crypto/cipher"
 	"crypto/hmac"
+	"crypto/rsa"
 	"encoding/asn1"
 	"errors"
 	"fmt"
 	"io"
 	"math/big"
 
-	"verif/mc/ref/gmrec"
 	"verif/mc/ref/refsm2"
-	"verif/mc/ref/refsm3"
-	"verif/mc/ref/refsm4"
 )
 
 const (
@@ -56,6 +54,9 @@ type Identity struct {
 	Certs   [][]byte // server: [signing certificate, encryption certificate, ...]; client: [certificate]
 	SignKey *big.Int // private scalar used for ServerKeyExchange / CertificateVerify (nil: cannot sign)
 	EncKey  *big.Int // server: private scalar decrypting the pre-master secret (nil: cannot decrypt)
+	// TLS profile
+	RSAKey *rsa.PrivateKey // server: decrypts the pre-master secret
+	TLSKey interface{}     // client: *ecdsa.PrivateKey or *rsa.PrivateKey signing CertificateVerify
 }
 
 // Half is the protection state of one direction.
@@ -74,6 +75,7 @@ func (a *Alert) Error() string { return fmt.Sprintf("alert level=%d description=
 // Peer is one scripted endpoint.
 type Peer struct {
 	RW     io.ReadWriter
+	Prof   *Profile // protocol variant (GM/T 0024 by default, see profile.go)
 	Client bool
 	Vers   uint16
 	Suite  uint16
@@ -107,6 +109,8 @@ type Peer struct {
 	NewTicket         []byte   // client: ticket received in NewSessionTicket
 	Resumed           bool     // client: the server echoed our session id, i.e. accepted the ticket
 	sentSID           []byte
+	HelloExt          []byte            // client: raw extensions appended to the ClientHello extension block
+	ServerExts        map[uint16][]byte // client: extensions found in the ServerHello
 	keySuite          uint16
 	Lenient           bool     // do not stop at a wrong peer Finished
 	RawIn             [][]byte // every record received, as on the wire (header and body)
@@ -116,7 +120,7 @@ type Peer struct {
 
 // New creates a peer with honest defaults.
 func New(rw io.ReadWriter, client bool, id Identity, rnd io.Reader) *Peer {
-	return &Peer{RW: rw, Client: client, Vers: Version, Suites: []uint16{SuiteCBC, SuiteGCM}, ID: id, Rand: rnd, Checks: map[string]bool{}}
+	return &Peer{RW: rw, Prof: GM, Client: client, Vers: Version, Suites: []uint16{SuiteCBC, SuiteGCM}, ID: id, Rand: rnd, Checks: map[string]bool{}}
 }
 
 // ---------------------------------------------------------------------------------------------
@@ -149,19 +153,19 @@ func (p *Peer) Seal(typ byte, data []byte, o SealOpt) []byte {
 	if !o.KeepSeq {
 		h.Seq++
 	}
-	if p.Suite == SuiteGCM {
+	if p.Prof.GCM(p.Suite) {
 		nonce := []byte{byte(seq >> 56), byte(seq >> 48), byte(seq >> 40), byte(seq >> 32), byte(seq >> 24), byte(seq >> 16), byte(seq >> 8), byte(seq)}
 		if o.IV != nil {
 			nonce = o.IV
 		}
-		g, _ := cipher.NewGCM(refsm4.Must(h.Key))
+		g, _ := cipher.NewGCM(p.Prof.Block(h.Key))
 		ct := g.Seal(nil, append(append([]byte{}, h.IV...), nonce...), data, seqHdr(seq, mt, p.Vers, len(data)))
 		if o.FlipMAC {
 			ct[len(ct)-1] ^= 1
 		}
 		return append(append([]byte{}, nonce...), ct...)
 	}
-	m := hmac.New(refsm3.New, h.MacKey)
+	m := hmac.New(p.Prof.MAC, h.MacKey)
 	m.Write(seqHdr(seq, mt, p.Vers, len(data)))
 	m.Write(data)
 	mac := m.Sum(nil)
@@ -188,7 +192,7 @@ func (p *Peer) Seal(typ byte, data []byte, o SealOpt) []byte {
 		io.ReadFull(p.Rand, iv)
 	}
 	ct := make([]byte, len(pt))
-	cipher.NewCBCEncrypter(refsm4.Must(h.Key), iv).CryptBlocks(ct, pt)
+	cipher.NewCBCEncrypter(p.Prof.Block(h.Key), iv).CryptBlocks(ct, pt)
 	return append(iv, ct...)
 }
 
@@ -211,26 +215,27 @@ func (p *Peer) open(typ byte, vers uint16, body []byte) ([]byte, error) {
 	h := &p.Rd
 	seq := h.Seq
 	h.Seq++
-	if p.Suite == SuiteGCM {
+	if p.Prof.GCM(p.Suite) {
 		if len(body) < 24 {
 			return nil, errors.New("gmref: GCM record too short")
 		}
 		p.PeerIVs = append(p.PeerIVs, append([]byte{}, body[:8]...))
-		g, _ := cipher.NewGCM(refsm4.Must(h.Key))
+		g, _ := cipher.NewGCM(p.Prof.Block(h.Key))
 		pt, err := g.Open(nil, append(append([]byte{}, h.IV...), body[:8]...), body[8:], seqHdr(seq, typ, vers, len(body)-24))
 		if err != nil {
 			return nil, errors.New("gmref: GCM tag does not verify")
 		}
 		return pt, nil
 	}
-	if len(body) < 64 || len(body)%16 != 0 {
+	ml := p.Prof.MacLen
+	if len(body) < 16+(ml+1+15)/16*16 || len(body)%16 != 0 {
 		return nil, errors.New("gmref: CBC record of impossible length")
 	}
 	p.PeerIVs = append(p.PeerIVs, append([]byte{}, body[:16]...))
 	pt := make([]byte, len(body)-16)
-	cipher.NewCBCDecrypter(refsm4.Must(h.Key), body[:16]).CryptBlocks(pt, body[16:])
+	cipher.NewCBCDecrypter(p.Prof.Block(h.Key), body[:16]).CryptBlocks(pt, body[16:])
 	pl := int(pt[len(pt)-1])
-	if pl+1+32 > len(pt) {
+	if pl+1+ml > len(pt) {
 		return nil, errors.New("gmref: CBC padding longer than record")
 	}
 	for _, b := range pt[len(pt)-1-pl:] {
@@ -238,8 +243,8 @@ func (p *Peer) open(typ byte, vers uint16, body []byte) ([]byte, error) {
 			return nil, errors.New("gmref: CBC padding bytes inconsistent")
 		}
 	}
-	data, mac := pt[:len(pt)-1-pl-32], pt[len(pt)-1-pl-32:len(pt)-1-pl]
-	m := hmac.New(refsm3.New, h.MacKey)
+	data, mac := pt[:len(pt)-1-pl-ml], pt[len(pt)-1-pl-ml:len(pt)-1-pl]
+	m := hmac.New(p.Prof.MAC, h.MacKey)
 	m.Write(seqHdr(seq, typ, vers, len(data)))
 	m.Write(data)
 	if !hmac.Equal(m.Sum(nil), mac) {
@@ -279,7 +284,7 @@ func (p *Peer) ReadRecord() (typ byte, data []byte, err error) {
 
 // DeriveKeys computes master secret (if needed) and the key block.
 func (p *Peer) DeriveKeys() error {
-	if p.Suite != SuiteCBC && p.Suite != SuiteGCM {
+	if !p.Prof.Has(p.Suite) {
 		return errors.New("gmref: no cipher suite agreed yet")
 	}
 	p.keySuite = p.Suite
@@ -287,13 +292,13 @@ func (p *Peer) DeriveKeys() error {
 		if p.PMS == nil {
 			return errors.New("gmref: no pre-master secret")
 		}
-		p.Master = gmrec.PRF(p.PMS, "master secret", append(append([]byte{}, p.CR...), p.SR...), 48)
+		p.Master = p.Prof.PRF(p.PMS, "master secret", append(append([]byte{}, p.CR...), p.SR...), 48)
 	}
-	macLen, keyLen, ivLen := 32, 16, 16
-	if p.Suite == SuiteGCM {
+	macLen, keyLen, ivLen := p.Prof.MacLen, 16, 16
+	if p.Prof.GCM(p.Suite) {
 		macLen, ivLen = 0, 4
 	}
-	kb := gmrec.PRF(p.Master, "key expansion", append(append([]byte{}, p.SR...), p.CR...), 2*macLen+2*keyLen+2*ivLen)
+	kb := p.Prof.PRF(p.Master, "key expansion", append(append([]byte{}, p.SR...), p.CR...), 2*macLen+2*keyLen+2*ivLen)
 	var c, s Half
 	c.MacKey, kb = kb[:macLen], kb[macLen:]
 	s.MacKey, kb = kb[:macLen], kb[macLen:]
@@ -316,7 +321,7 @@ func (p *Peer) VerifyData(client bool) []byte {
 	if client {
 		label = "client finished"
 	}
-	return gmrec.PRF(p.Master, label, refsm3.SumSlice(p.Transcript), 12)
+	return p.Prof.PRF(p.Master, label, p.Prof.Hash(p.Transcript), 12)
 }
 
 // ---------------------------------------------------------------------------------------------
@@ -687,11 +692,23 @@ func (p *Peer) digest(m []byte) error {
 		}
 		p.SessionID = append([]byte{}, body[35:35+sl]...)
 		p.Suite = uint16(body[35+sl])<<8 | uint16(body[36+sl])
-		if v := uint16(body[0])<<8 | uint16(body[1]); v != Version {
+		if v := uint16(body[0])<<8 | uint16(body[1]); v != p.Prof.Version {
 			return fmt.Errorf("gmref: ServerHello version %04x", v)
 		}
-		if p.Suite != SuiteCBC && p.Suite != SuiteGCM {
+		if !p.Prof.Has(p.Suite) {
 			return fmt.Errorf("gmref: ServerHello suite %04x", p.Suite)
+		}
+		p.ServerExts = map[uint16][]byte{}
+		if rest := body[35+sl+3:]; len(rest) >= 2 {
+			eb := rest[2:]
+			for len(eb) >= 4 {
+				t, l := uint16(eb[0])<<8|uint16(eb[1]), int(eb[2])<<8|int(eb[3])
+				if len(eb) < 4+l {
+					break
+				}
+				p.ServerExts[t] = append([]byte{}, eb[4:4+l]...)
+				eb = eb[4+l:]
+			}
 		}
 		if p.Client && p.Ticket != nil && len(p.sentSID) > 0 && bytes.Equal(p.SessionID, p.sentSID) {
 			if p.Suite != p.ResumeSuite {
@@ -712,27 +729,23 @@ func (p *Peer) digest(m []byte) error {
 		}
 		p.PeerCerts = cs
 	case HSServerKX:
-		if len(p.PeerCerts) >= 2 && len(body) >= 2 {
-			if pub, err := CertPublicKey(p.PeerCerts[0]); err == nil {
-				p.Checks["ske-signature"] = int(body[0])<<8|int(body[1]) == len(body)-2 && VerifySM2(pub, SKEInput(p.CR, p.SR, p.PeerCerts[1]), body[2:])
-			}
+		if p.Prof.CheckSKE != nil {
+			p.Prof.CheckSKE(p, body)
 		}
 	case HSCertRequest:
 		p.CertRequested = true
 	case HSServerDone:
 	case HSClientKX:
-		if p.ID.EncKey != nil {
-			pms, err := DecryptCKX(p.ID.EncKey, body)
-			if err != nil {
-				return err
-			}
+		pms, err := p.Prof.OpenCKX(p, body)
+		if err != nil {
+			return err
+		}
+		if pms != nil {
 			p.PMS = pms
 		}
 	case HSCertVerify:
-		if len(p.PeerCerts) > 0 && len(body) >= 2 {
-			if pub, err := CertPublicKey(p.PeerCerts[0]); err == nil {
-				p.Checks["certverify-signature"] = int(body[0])<<8|int(body[1]) == len(body)-2 && VerifySM2(pub, refsm3.SumSlice(p.Transcript), body[2:])
-			}
+		if len(p.PeerCerts) > 0 {
+			p.Prof.CheckCV(p, body)
 		}
 	case HSFinished:
 		if !p.Rd.On {
@@ -780,13 +793,17 @@ func ItemClientHello() Item {
 			p.CR = p.rnd(32)
 		}
 		body := ClientHelloBody(p.Vers, p.CR, nil, p.Suites, []byte{0})
+		var ext []byte
 		if p.OfferTicket || p.Ticket != nil {
 			if p.Ticket != nil && p.sentSID == nil {
 				p.sentSID = p.rnd(16)
 			}
 			body = ClientHelloBody(p.Vers, p.CR, p.sentSID, p.Suites, []byte{0})
-			ext := append([]byte{0, 35}, u16(len(p.Ticket))...)
+			ext = append([]byte{0, 35}, u16(len(p.Ticket))...)
 			ext = append(ext, p.Ticket...)
+		}
+		ext = append(ext, p.HelloExt...)
+		if len(ext) > 0 {
 			body = append(body, u16(len(ext))...)
 			body = append(body, ext...)
 		}
@@ -834,7 +851,7 @@ func ItemServerKX() Item {
 }
 
 func ItemCertRequest() Item {
-	return Item{Name: "CertificateRequest", Rec: RecHS, Build: func(p *Peer) []byte { return HS(HSCertRequest, CertRequestBody([]byte{1, 64}, p.CAs)) }}
+	return Item{Name: "CertificateRequest", Rec: RecHS, Build: func(p *Peer) []byte { return HS(HSCertRequest, p.Prof.CertReq(p)) }}
 }
 
 func ItemServerDone() Item {
@@ -846,21 +863,12 @@ func ItemClientKX() Item {
 		if p.PMS == nil {
 			p.PMS = append([]byte{byte(p.Vers >> 8), byte(p.Vers)}, p.rnd(46)...)
 		}
-		var pub refsm2.Point
-		if len(p.PeerCerts) >= 2 {
-			pub, _ = CertPublicKey(p.PeerCerts[1])
-		}
-		if pub.X == nil {
-			pub = refsm2.G()
-		}
-		return HS(HSClientKX, CKXBody(pub, p.PMS, p.Rand))
+		return HS(HSClientKX, p.Prof.BuildCKX(p, p.PMS))
 	}}
 }
 
 func ItemCertVerify() Item {
-	return Item{Name: "CertificateVerify", Rec: RecHS, Build: func(p *Peer) []byte {
-		return HS(HSCertVerify, SKEBody(SignSM2(p.ID.SignKey, refsm3.SumSlice(p.Transcript), p.Rand)))
-	}}
+	return Item{Name: "CertificateVerify", Rec: RecHS, Build: func(p *Peer) []byte { return HS(HSCertVerify, p.Prof.SignCV(p)) }}
 }
 
 func ItemCCS() Item { return Item{Name: "ChangeCipherSpec", Rec: RecCCS} }
@@ -967,7 +975,10 @@ func (p *Peer) ClientFlight1(s *Script) []Item {
 
 // ServerFlight0 is the honest server hello flight.
 func (p *Peer) ServerFlight0() []Item {
-	items := []Item{ItemServerHello(), ItemCertificate(), ItemServerKX()}
+	items := []Item{ItemServerHello(), ItemCertificate()}
+	if p.Prof.HasSKE {
+		items = append(items, ItemServerKX())
+	}
 	if p.RequestCert {
 		items = append(items, ItemCertRequest())
 	}
